@@ -292,6 +292,59 @@ func extractCodec(p *core.Prog, rel string) *keyCodec {
 			kc.Parsers[fi.Obj] = kp
 		}
 	}
+	// derived builders: `return append(Base(args…), param…)` — the base key continued by raw
+	// bytes.  The result ends with whatever the parameter ends with, i.e. it is not
+	// separator-terminated, whatever the base was.
+	for _, fi := range p.AllDecls() {
+		if fi.Pkg != pk || fi.Decl.Body == nil || fi.Decl.Recv != nil || kc.Builders[fi.Obj] != nil {
+			continue
+		}
+		body := fi.Decl.Body.List
+		if len(body) != 1 {
+			continue
+		}
+		ret, ok := body[0].(*ast.ReturnStmt)
+		if !ok || len(ret.Results) != 1 {
+			continue
+		}
+		call, ok := ast.Unparen(ret.Results[0]).(*ast.CallExpr)
+		if !ok || !isBuiltin2(info, call, "append") || len(call.Args) != 2 || call.Ellipsis == token.NoPos {
+			continue
+		}
+		bc, ok := ast.Unparen(call.Args[0]).(*ast.CallExpr)
+		if !ok {
+			continue
+		}
+		bfn := core.CalleeFunc(info, bc)
+		if bfn == nil {
+			continue
+		}
+		base := kc.Builders[bfn]
+		if base == nil {
+			continue
+		}
+		sig := fi.Obj.Type().(*types.Signature)
+		pi := -1
+		if o := defOrUse(info, call.Args[1]); o != nil {
+			for i := 0; i < sig.Params().Len(); i++ {
+				if sig.Params().At(i) == o {
+					pi = i
+				}
+			}
+		}
+		if pi < 0 {
+			continue
+		}
+		kb := &keyBuilder{FI: fi, Family: base.Family, FamByte: base.FamByte, Sep: base.Sep}
+		for _, c := range base.Comps {
+			if c.Kind != "empty" {
+				kb.Comps = append(kb.Comps, c)
+			}
+		}
+		kb.Comps = append(kb.Comps, keyComp{Kind: "bytes", Param: pi, Name: sig.Params().At(pi).Name()})
+		kb.IsPrefix = false
+		kc.Builders[fi.Obj] = kb
+	}
 	return kc
 }
 
